@@ -10,6 +10,10 @@ follows a schedule chosen by the harness, so any interleaving at primitive granu
 point is reproducible.  `time.time` is a per-process logical clock; the lock's retry loop runs on a
 logical clock too (real `flock`, no real waiting).
 
+Loaders load any bundled version or a version list (one model `load v` per `_load_schema_version_sub` call);
+`get_library_data` runs against the library_data sub-folder (a `peek` / `populate` / `refresh 0` sequence of
+the model); the timestamp write is two primitives (truncate, write).
+
 Direct oracle = the property on the implementation's observables (loader outcome + hash of what it
 read, final files vs bundled bytes, overlap of `with CacheLock` intervals, the CacheException branch,
 the refresh interval).  Model comparison = the realised schedule is replayed on `Cache.safe`
